@@ -89,18 +89,70 @@ UNIT = {
          },
         # ---------------------------------------------------------------- type_of (assumed for now)
         {'kind': 'vrs', 'file': 'types/spec_coerce.vrs'},
-        {'kind': 'text', 'note': 'assumed-contract', 'text': """impl Value {
-  #[verifier::external_body]
-  pub fn type_of(&self) -> (r: FeelType) ensures type_rel(*self, r) { unimplemented!() }
-}
-impl Values {
-  #[verifier::external_body]
-  pub fn new(values: Vec<Value>) -> (r: Values) ensures r.0 == values { unimplemented!() }
-  #[verifier::external_body]
-  pub fn len(&self) -> (r: usize) ensures r == self.0@.len() { unimplemented!() }
-  #[verifier::external_body]
-  pub fn as_vec(&self) -> (r: &Vec<Value>) ensures *r == self.0 { unimplemented!() }
-}"""},
+        {'kind': 'item', 'src': 'feel/src/context.rs', 'path': 'impl Deref for FeelContext', 'key': 'types::FeelContext::deref',
+         'rewrites': [('RX', 'contract', r'fn deref\(&self\) -> &Self::Target \{', 'fn deref(&self) -> (r: &Self::Target) ensures *r == self.0 {', 1)]},
+        {'kind': 'fn', 'src': 'feel/src/values.rs', 'path': 'impl Value::fn type_of',
+         'key': 'types::Value::type_of',
+         'props': ['C16'], 'auto_props': ['C16', 'C05'],
+         'ret': 'r',
+         'attrs': '#[verifier::exec_allows_no_decreases_clause]',
+         'ensures': [('post_type_rel', 'type_rel(*self, r)')],
+         'body_prefix': '''broadcast use vstd::std_specs::btree::group_btree_axioms;
+proof {
+  axiom_name_key();
+  let ghost gself = *self;
+  match gself {
+    Value::ContextType(ft) => { lemma_equiv_refl(ft); }
+    Value::ContextTypeEntry(_, ft) => { lemma_equiv_refl(ft); }
+    Value::FeelType(ft) => { lemma_equiv_refl(ft); }
+    Value::FormalParameter(_, ft) => { lemma_equiv_refl(ft); }
+    Value::FunctionDefinition(ps, _, res) => {
+      lemma_equiv_refl(res);
+      assert forall |i: int| 0 <= i < ps@.len() implies equiv(#[trigger] ps@[i].1, ps@[i].1) by { lemma_equiv_refl(ps@[i].1); }
+    }
+    _ => {}
+  }
+}''',
+         'rewrites': [('RX', 'R2', r'for \(name, value\) in context\.deref\(\) \{', 'for (name, value) in context.deref().iter() {', 1),
+                      ('RX', 'R10', r'\|\(_, feel_type\)\| feel_type\.clone\(\)', '|p: &(Name, FeelType)| -> (q: FeelType) ensures q == p.1 { p.1.clone() }', 1),
+                      ('RX', 'R2v', r'for item in values\.as_vec\(\) \{', 'for item in values.as_vec().iter() {', 1)],
+         'loops': 2,
+         'loop_specs': {
+             0: {
+                 'iter_name': 'it',
+                 'invariant': [
+                     ('ctx_self', '*self is Context, self->Context_0 == *context'),
+                     ('seq_in_map', 'forall |j: int| 0 <= j < it.seq().len() ==> context.0@.contains_key(*(#[trigger] it.seq()[j]).0) && context.0@[*it.seq()[j].0] == *it.seq()[j].1'),
+                     ('map_in_seq', 'forall |kk: Name| context.0@.contains_key(kk) ==> exists |j: int| 0 <= j < it.seq().len() && *(#[trigger] it.seq()[j]).0 == kk'),
+                     ('done_keys', 'forall |j: int| 0 <= j < it.index@ ==> entries@.contains_key(*(#[trigger] it.seq()[j]).0)'),
+                     ('entries_ok', 'forall |k: Name| #[trigger] entries@.contains_key(k) ==> context.0@.contains_key(k) && type_rel(context.0@[k], entries@[k])'),
+                 ],
+                 'body_prefix': 'proof {\n  axiom_name_key();\n  assert(context.0@.contains_key(*name) && context.0@[*name] == *value);\n}',
+             },
+             1: {
+                 'iter_name': 'it',
+                 'invariant': [
+                     ('list_self', '*self is List, self->List_0 == *values, values.0@.len() > 0'),
+                     ('seq_is_vec', 'it.seq() =~= values.0@.map_values(|v: Value| &v)'),
+                     ('first', 'type_rel(values.0@[0], item_type)'),
+                     ('done_same', 'forall |j: int| 0 <= j < it.index@ ==> type_rel(#[trigger] values.0@[j], item_type)'),
+                 ],
+                 'body_prefix': 'proof {\n  lemma_type_rel_functional_all(*item, item_type);\n  lemma_type_rel_closed_all(*item, item_type);\n  assert(*item == values.0@[it.index@ as int]);\n  assert(wit(item_type));\n}',
+             },
+         },
+         'splices': [
+             {'id': 'range_hint', 'op': 'before', 'anchor': 'if range_start_type == range_end_type {',
+              'text': 'proof {\n  assert(wit(range_start_type));\n  lemma_equiv_refl(range_start_type);\n  if equiv(range_start_type, range_end_type) { lemma_equiv_sym(range_start_type, range_end_type); lemma_type_rel_closed(**range_end, range_end_type, range_start_type); }\n  if type_rel(**range_end, range_start_type) { lemma_type_rel_functional(**range_end, range_start_type, range_end_type); }\n}'},
+             {'id': 'list_all_hint', 'op': 'before', 'anchor': 'FeelType::List(Box::new(item_type))',
+              'text': 'proof { assert(wit(item_type)); lemma_equiv_refl(item_type); }'},
+         ],
+         },
+        {'kind': 'fn', 'src': 'feel/src/values.rs', 'path': 'impl Values::fn new', 'key': 'types::Values::new',
+         'props': ['C16'], 'auto_props': ['C16', 'C05'], 'ret': 'r', 'ensures': [('post', 'r.0 == values')], 'loops': 0},
+        {'kind': 'fn', 'src': 'feel/src/values.rs', 'path': 'impl Values::fn len', 'key': 'types::Values::len',
+         'props': ['C16'], 'auto_props': ['C16', 'C05'], 'ret': 'r', 'ensures': [('post', 'r == self.0@.len()')], 'loops': 0},
+        {'kind': 'fn', 'src': 'feel/src/values.rs', 'path': 'impl Values::fn as_vec', 'key': 'types::Values::as_vec',
+         'props': ['C16'], 'auto_props': ['C16', 'C05'], 'ret': 'r', 'ensures': [('post', '*r == self.0')], 'loops': 0},
         {'kind': 'item', 'src': 'feel/src/values.rs', 'path': 'macro_rules! value_null'},
         {'kind': 'vrs', 'file': 'types/lemmas_coerce.vrs'},
         # ---------------------------------------------------------------- coerced
@@ -114,3 +166,21 @@ impl Values {
          },
     ],
 }
+
+NOT_DECIDED = {
+    'C16': [
+        'where coercion is applied during function invocation / decision output (closure wiring in feel-evaluator builders and model-evaluator)',
+        'termination of is_conformant and Value::type_of (exec_allows_no_decreases_clause)',
+        'get_value_checked / get_conformant_value (not part of the property)',
+    ],
+    'C05': [
+        'only is_equivalent is proved terminating here; no arithmetic in this unit',
+    ],
+}
+ASSUMPTIONS = [
+    'A-name: Name\'s derived Ord is a total order (axiom_name_key)',
+    'A-derive: derived Clone impls of Name/FeelType/Value return an equal value; derived PartialEq of FeelType decides structural equality (= spec equiv)',
+    'A-std: vstd specifications of Vec, BTreeMap (get/insert/iter/keys/len), slice iterators, Iterator::map/collect',
+    'rewrite rules R1 (enumerate), R2 (map iteration via .iter()), R7 (field visibility), R10 (tuple-pattern closure parameter named; closure given its own ensures) are semantics-preserving',
+    'type_rel (the type of a value) is transcribed from the implementation\'s intent, not from the standard',
+]
